@@ -48,9 +48,11 @@ def run(ctx):
                             "c09_wrong_pass_unchanged", "c09_no_chain_unchanged",
                             "c09_refused_unchanged", "c09_refused_still_sealed", "c09_accepted_iff", "c09_auto_unseal_refused_unchanged", "c09_auto_unseal_only_right_pass", "c09_old_refused_changes_state_refuted",
                             "c09_once_sequential", "c09_once", "c09_no_half_init", "c09_unseal_is_its_body", "c09_published",
-                            "c09_published_stable", "c09_writers_keep", "c09_stale_replace_refuted"])
+                            "c09_published_stable", "c09_writers_keep", "c09_stale_replace_refuted",
+                            "c09_readyz_iff_unsealed", "c09_readyz_request_independent", "c09_readyz_reachable", "c09_probe_predicate_sound", "c09_readyz_chatty_refuted",
+                            "c09_published_across_restarts", "c09_kept_ca_refuted", "c09_pubkeys_listed_or_loaded", "c09_life_predicate_sound"])
     gen = ctx.extract()
-    files = ["kmd/common.go", "kmd/creds.go", "kmd/c09.go", "kmd/c09conn.go", "kmd/c09pub.go", "kmd/c09aws.go", os.path.join(ctx.work, "gen", "mux_gen.go")]
+    files = ["kmd/common.go", "kmd/creds.go", "kmd/c09.go", "kmd/c09conn.go", "kmd/c09pub.go", "kmd/c09aws.go", "kmd/c09ready.go", "kmd/c09life.go", os.path.join(ctx.work, "gen", "mux_gen.go")]
     ok, result, log = ctx.go_harness("cmd/keymasterd", "TestVerif_C09", files, timeout=1500)
     ok2, result2, log2 = ctx.go_harness("cmd/keymasterd", "TestVerif_C09Race", files, race=True, timeout=1800)
     nrace = racelog.absorb(ctx, log2, "C09")
@@ -109,6 +111,14 @@ def run(ctx):
                                  "oracle": "c09_auto_unseal_only_right_pass / c09_auto_unseal_refused_unchanged evaluated (inside Coq) on the observed state after the auto-unseal attempt",
                                  "what": "the auto-unseal path unsealed with a secret that does not decrypt and load every key file, or a failed attempt changed the state",
                                  "case": {"case": line}, "observed": {"violating_cases": viol}})
+            corr(ctx, res, "c09_ready_mismatches", "the readiness probe behind a real net/http server in every form a prober asks it (method x query parameters harvested from the handler's source and arbitrary ones x trailing slash x Accept) on sealed / refused / unsealed states: status and signer = Model.SealLife.readyz_probe on the state Model.Seal.inject_all gives", idx, "ready")
+            model_oracle(ctx, res, "c09_ready_violating", idx, "ready", "readyz-ready-while-sealed",
+                         "c09_readyz_iff_unsealed evaluated (inside Coq, Model.SealLife.probe_violates; never true of the model by c09_probe_predicate_sound) on the observed probe",
+                         "a readiness probe was answered 200 while the signer is absent")
+            corr(ctx, res, "c09_life_mismatches", "life cycles across restarts on one data directory (same key / rotated key of the same kind / of another kind x directory kept / emptied; a second RuntimeState through loadVerifyConfigFile): signer, keys of /public/sshca, keys of the certificates of /public/x509ca, X.509 issuance after every run = Model.SealLife.life", idx, "life")
+            model_oracle(ctx, res, "c09_life_violating", idx, "life", "published-ca-not-for-signing-key",
+                         "c09_published_across_restarts evaluated (inside Coq, Model.SealLife.life_case_violates) on the observation after a run: a key of /public/sshca without CA certificate in /public/x509ca, or the requested X.509 certificate is not issued / does not verify under them",
+                         "after a restart on a used data directory the published CA certificates are not those of the keys decrypted now")
             corr(ctx, res, "c09_route_mismatches", "every probed request on sealed / half-loaded / unsealed states: emitted artefacts and error class = Model.Seal.run_handler on the signing primitives the request reaches", idx, "route")
     ctx.assumptions = ["the service listener is started by main() only after SignerIsReady; the handler-level guarantee is what is checked here"]
     return ctx.finish("bin/build-coq; coqc Audit_Props_C09 / CasesC09 (lib/core.py); go test -overlay TestVerif_C09; go test -race -overlay TestVerif_C09Race",
